@@ -255,7 +255,14 @@ where
                 XRef::Raw {pos, ..} => {
                     let pos = t!(self.start_offset.checked_add(pos).ok_or(PdfError::Invalid));
                     let mut lexer = Lexer::with_offset(t!(self.backend.read(pos ..)), pos);
-                    let p = t!(parse_indirect_object(&mut lexer, resolve, self.decoder.as_ref(), flags)).1;
+                    let (id, mut p) = t!(parse_indirect_object(&mut lexer, resolve, self.decoder.as_ref(), flags));
+                    // the data of a stream belongs to the number that was asked for, whatever number
+                    // the object header carries: the stream cache is keyed by it
+                    if id.id != r.id {
+                        if let Primitive::Stream(crate::primitive::PdfStream { inner: crate::primitive::StreamInner::InFile { ref mut id, .. }, .. }) = p {
+                            id.id = r.id;
+                        }
+                    }
                     Ok(p)
                 }
                 XRef::Stream {stream_id, index} => {
